@@ -86,6 +86,11 @@ pub fn all() -> Vec<Box<dyn Check>> {
     v.push(Box::new(Reuse { property: "C08", family: "c08_monitor_on_networks", inner: Box::new(c01_noisy()), quick_runs: 800, thorough_runs: 30_000 }));
     v.push(Box::new(Reuse { property: "C08", family: "c08_monitor_on_faithful_history", inner: Box::new(c12::C12), quick_runs: 2000, thorough_runs: 40_000 }));
     v.push(Box::new(Reuse { property: "C12", family: "c12_timer_cover_on_networks", inner: Box::new(C12Net(c01_exact())), quick_runs: 1000, thorough_runs: 30_000 }));
+    // C17 part 1: the nesting-detecting lock runs in every scenario; these families report it
+    v.push(Box::new(Reuse { property: "C17", family: "c17_lock_depth_on_random_history", inner: Box::new(c08::C08Driver), quick_runs: 4000, thorough_runs: 100_000 }));
+    v.push(Box::new(Reuse { property: "C17", family: "c17_lock_depth_on_networks", inner: Box::new(c01_noisy()), quick_runs: 600, thorough_runs: 20_000 }));
+    v.push(Box::new(Reuse { property: "C17", family: "c17_lock_depth_on_boundary_clock_tlvs", inner: Box::new(c15::C15), quick_runs: 2000, thorough_runs: 50_000 }));
+    v.push(Box::new(Reuse { property: "C17", family: "c17_lock_depth_on_chaos_host", inner: Box::new(c03::C03), quick_runs: 3000, thorough_runs: 60_000 }));
     let _ = c02_free;
     v
 }
@@ -166,6 +171,11 @@ pub fn extras(property: &str) -> EvidenceExtras {
         }
         "C15" => {
             e.rule = "each run = a boundary clock (one slave port, 1-3 master ports sharing the daemon's real TlvForwarder) whose scripted parent, another acceptable master and an unacceptable sender attach generated TLV suffixes to their Announces (propagating / non-propagating / reserved types, even lengths 0..1100 incl. sizes equal to, just below and just above the room left, path traces of 0..200 entries incl. looping ones, bursts beyond the forwarder capacity); each emitted Announce is compared with a per-port model queue; non-trivial = Announces checked and at least one TLV forwarded or looping Announce sent; distinct = TLV script fingerprint".into();
+        }
+        "C17" => {
+            e.rule = "part 1: every host call of every simulated history (random histories, noisy networks, boundary-clock TLV forwarding, chaos host) runs over a PtpInstanceStateMutex that counts acquisition depth and reports any with_ref/with_mut entered while one is active; part 2 (merged from /verif/c17): the unmodified Port/PtpInstance code driven from 2-3 port threads, an observer, a BMCA coordinator and a settings thread under shuttle's random and PCT schedulers over a shuttle RwLock, checking depth <= 1, no deadlock/panic and that every snapshot (getters and emitted Announces) is explained by one update generation; non-trivial = at least one state transition (part 1) / every schedule (part 2); distinct = transition fingerprint / schedule fingerprint".into();
+            e.components_real.push("statime::PtpInstanceStateMutex call sites (all of port/*, ptp_instance.rs)".into());
+            e.components_stub.push("std::sync::RwLock -> depth-counting RefCell lock (part 1), shuttle::sync::RwLock (part 2; no writer preference, so a nested read is reported by the depth monitor rather than by a real hang)".into());
         }
         "C18" => {
             e.rule = "each run = one OverlayClock (plain or behind SharedClock) over a simulated underlying clock started anywhere in the PTP range, driven through a history of 1-50 operations from {set_frequency(ppm in [-500,500], multiples of 2^-10 so the fixed-point conversion is exact), step_clock(+-10 s incl. sub-ns), advance the underlying clock by 0..10^4 s}; after every operation the reading, the returned time and time_from_underlying are compared with an affine reference model in exact 2^-32 ns integers; non-trivial = at least two operations; distinct = operation-kind sequence".into();
